@@ -312,11 +312,15 @@ class TBRiROAS():
     tail_probability = (1 - level) / tails
 
     metric_data = metric_df.analysis_data.copy().reset_index()
-    # Only the pre-test, test and cooldown dates enter the report.
+    # Only the pre-test, test and cooldown dates of the two analysed groups
+    # enter the report.
     key_period = self.df_names.period
     key_date = self.df_names.date
     key_cost = self.df_names.cost
-    metric_data = metric_data[metric_data[key_period].isin(periods)]
+    metric_data = metric_data[
+        metric_data[key_period].isin(periods) &
+        metric_data[self.df_names.group].isin(
+            [self.groups.control, self.groups.treatment])]
 
     dates = np.sort(metric_data.loc[metric_data[key_period].isin(periods),
                                     key_date].unique())
